@@ -453,21 +453,18 @@ def make_known_match(side):
 def build_all(ck):
     hdr = K.ensure_header()
     key = tree_hash([hdr])
-    n = NPARTS * 2
-    exes = [None] * n; errs = [''] * n
-    def job(j):
-        k, fe = divmod(j, 2)
-        exes[j], errs[j] = ck.build_harness('alloc_p%d_fe%d' % (k, fe), ['alloc.cpp'], flags=['-DNDEBUG', '-DSIG_PART=%d' % k, '-DFE_UNBOUNDED=%d' % fe], san=False, extra_key=key)
-    th = [threading.Thread(target=job, args=(j,)) for j in range(n)]
+    exes = [None] * NPARTS; errs = [''] * NPARTS
+    def job(k):
+        exes[k], errs[k] = ck.build_harness('alloc_p%d' % k, ['alloc.cpp'], flags=['-DNDEBUG', '-DSIG_PART=%d' % k], san=False, extra_key=key)
+    th = [threading.Thread(target=job, args=(k,)) for k in range(NPARTS)]
     for t in th: t.start()
     for t in th: t.join()
     return exes, errs
 
 
 def exe_of(case):
-    a = case.split()
-    unb = int(a[1]); sig = int(a[7]) & 0xffff
-    return (SIG_INDEX.get(sig, 0) % NPARTS) * 2 + (1 if unb else 0)
+    sig = int(case.split()[7]) & 0xffff
+    return SIG_INDEX.get(sig, 0) % NPARTS
 
 
 MAX_DEATHS = 8
